@@ -238,4 +238,41 @@ Section HeightAll.
     rewrite shape_height_of. destruct i; cbn [Height]; try reflexivity.
     apply cheight_height. apply I.
   Qed.
+  (** everything C15 says, per implementation, from the table-level invariant *)
+  Definition c15_props (i : impl) (t : tree) : Prop :=
+    match i with
+    | BST => True
+    | AVL => balanced t /\ cached_heights_ok t /\ avl_check t = true
+    | RB => black_balanced t /\ no_right_red t /\ no_red_red t /\ root_black t /\
+            height t <= 2 * Z.log2 (size t + 1) /\ rb_check t = true
+    end /\ height_ok i t.
+
+  Lemma inv_c15 (i : impl) (t : tree) : inv_of cmp i t -> c15_props i t.
+  Proof.
+    intros HI. split.
+    - destruct i; cbn [inv_of] in HI; [exact I|..].
+      + destruct HI as [_ HI]. destruct (avl_inv_balanced t HI). repeat split; auto. now apply avl_inv_check.
+      + destruct (rb_ok_props cmp t HI) as (?&?&?&?&?&?&?). repeat split; auto.
+    - exists (shape_of t).
+      split; [apply shape_from_traversals_ok; auto; exact (inv_sorted _ _ _ _ (refines_all cmp TO i) t HI)|].
+      rewrite shape_height_of. destruct i; cbn [Height]; try reflexivity.
+      apply cheight_height. apply HI.
+  Qed.
+
+  (** the invariants also hold when the history continues on a SelectMatch / PartitionMatch result *)
+  Theorem selection_c15 (i : impl) (h : list (mut K V)) p (h2 : list (mut K V)) :
+    exists t t' t'', build cmp i h = Ok t /\ SelectMatch cmp i p t = Ok t' /\
+      build_from cmp i t' h2 = Ok t'' /\ c15_props i t''.
+  Proof.
+    destruct (selection_all cmp (fun _ _ => true) TO i h p h2 [] eq_refl) as (t & t' & t'' & E1 & E2 & E3 & I & _).
+    exists t, t', t''. repeat split; auto; now apply inv_c15.
+  Qed.
+
+  Theorem partition_c15 (i : impl) (h : list (mut K V)) p (second : bool) (h2 : list (mut K V)) :
+    exists t ta tb t'', build cmp i h = Ok t /\ PartitionMatch cmp i p t = (Ok ta, Ok tb) /\
+      build_from cmp i (if second then tb else ta) h2 = Ok t'' /\ c15_props i t''.
+  Proof.
+    destruct (partition_all cmp (fun _ _ => true) TO i h p second h2 [] eq_refl) as (t & ta & tb & t'' & E1 & E2 & E3 & I & _).
+    exists t, ta, tb, t''. repeat split; auto; now apply inv_c15.
+  Qed.
 End HeightAll.
